@@ -159,6 +159,64 @@ def l2OfXml (targetMaxPq : Nat) (lift gain gamma chroma sat ms : Int) : Block :=
     vals := [(targetMaxPq : Int), (slope12 lift gain : Int), (offset12 lift gain : Int), (power12 gamma : Int),
              (lin12 chroma : Int), (lin12 sat : Int), (lin12 ms : Int)] }
 
+/-! ## primaries: preset index or custom values; L9 and L10 -/
+
+/-- `PRESET_TARGET_DISPLAYS` -/
+def presetTargets : List Nat := [1, 16, 18, 21, 27, 28, 37, 38, 42, 48, 49]
+
+/-- `PREDEFINED_COLORSPACE_PRIMARIES` (scaled by 10^6) -/
+def colorspacePrimaries : List (List Int) :=
+  [[680000, 320000, 265000, 690000, 150000, 60000, 312700, 329000],
+   [640000, 330000, 300000, 600000, 150000, 60000, 312700, 329000],
+   [708000, 292000, 170000, 797000, 131000, 46000, 312700, 329000],
+   [630000, 340000, 310000, 595000, 155000, 70000, 312700, 329000],
+   [640000, 330000, 290000, 600000, 150000, 60000, 312700, 329000],
+   [680000, 320000, 265000, 690000, 150000, 60000, 314000, 351000],
+   [734700, 265300, 0, 1000000, 100, -77000, 321680, 337670],
+   [730000, 280000, 140000, 855000, 100000, -50000, 312700, 329000],
+   [766000, 275000, 225000, 800000, 89000, -87000, 312700, 329000]]
+
+/-- `PREDEFINED_REALDEVICE_PRIMARIES` (scaled by 10^6) -/
+def realdevicePrimaries : List (List Int) :=
+  [[693000, 304000, 208000, 761000, 146700, 52700, 312700, 329000],
+   [686700, 308500, 231000, 690000, 148900, 63800, 312700, 329000],
+   [678100, 318900, 236500, 704800, 141000, 48900, 312700, 329000],
+   [680000, 320000, 265000, 690000, 150000, 60000, 312700, 329000],
+   [704200, 294000, 227100, 725000, 141600, 51600, 312700, 329000],
+   [674500, 310000, 221200, 710900, 152000, 61900, 312700, 329000],
+   [680500, 319100, 252200, 670200, 139700, 55400, 312700, 329000],
+   [683800, 308500, 270900, 637800, 147800, 58900, 312700, 329000],
+   [675300, 319300, 263600, 683500, 152100, 62700, 312700, 329000],
+   [698100, 289800, 181400, 718900, 151700, 56700, 312700, 329000]]
+
+/-- `find_primary_index`: exact match against the colour-space presets, then (L9 only) the real-device
+presets offset by the number of colour spaces; 255 = custom -/
+def primaryIndex (realdevice : Bool) (p : List Int) : Nat :=
+  match colorspacePrimaries.findIdx? (· == p) with
+  | some k => k
+  | none =>
+    if realdevice then
+      match realdevicePrimaries.findIdx? (· == p) with
+      | some k => k + colorspacePrimaries.length
+      | none => 255
+    else 255
+
+/-- `parse_level9_trim`: preset → length 1, custom → length 17 with `round(v·32767)` -/
+def l9OfXml (p : List Int) : Block :=
+  let idx := primaryIndex true p
+  if idx == 255 then { level := 9, length := 17, vals := (255 : Int) :: p.map fun v => (prim16 v : Int) }
+  else { level := 9, length := 1, vals := (idx : Int) :: List.replicate 8 0 }
+
+/-- the L10 block of a target display (PQ codes computed from its nits) -/
+def l10OfXml (tid maxPq minPq : Nat) (p : List Int) : Block :=
+  let idx := primaryIndex false p
+  if idx == 255 then { level := 10, length := 21, vals := [(tid : Int), (maxPq : Int), (minPq : Int), 255] ++ p.map fun v => (prim16 v : Int) }
+  else { level := 10, length := 5, vals := [(tid : Int), (maxPq : Int), (minPq : Int), (idx : Int)] ++ List.replicate 8 0 }
+
+/-- `parse_global_level10_targets`: "Only allow custom L10" — targets are (id, max PQ, min PQ, primaries) -/
+def l10Defaults (targets : List (Nat × Nat × Nat × List Int)) : List Block :=
+  (targets.filter fun t => !presetTargets.contains t.1).map fun t => l10OfXml t.1 t.2.1 t.2.2.1 t.2.2.2
+
 /-! ## shots: stable sort by start -/
 
 /-- stable insertion: before the first element whose start is not strictly smaller -/
